@@ -239,6 +239,17 @@ func genRandom(r *rand.Rand) In {
 		nr = 1
 	}
 	var author, user []Rule
+	tiny := sized && chance(r, 0.03)
+	if tiny {
+		// pages lower than most lines and blocks: every unit overflows its page, which is allowed
+		// only because it is the first on the page (progress guarantee)
+		nr = 0
+		mt, mb := 4*r.Intn(5), 4*r.Intn(5)
+		author = append(author, Rule{Origin: "author", Decls: []Decl{
+			{P: "margin", V: []int{mt, 4 * r.Intn(5), mb, 4 * r.Intn(5)}},
+			{P: "size", V: []int{200, mt + mb + 4*(2+r.Intn(5))}},
+		}})
+	}
 	for k := 0; k < nr; k++ {
 		origin := "author"
 		if chance(r, 0.2) {
@@ -271,6 +282,9 @@ func genRandom(r *rand.Rand) In {
 	// flow
 	id := 0
 	ni := 3 + r.Intn(8)
+	if tiny {
+		ni = 2 + r.Intn(3)
+	}
 	for k := 0; k < ni; k++ {
 		if chance(r, 0.2) {
 			box := Item{Kind: "box", ID: fmt.Sprintf("u%d", id)}
